@@ -38,7 +38,7 @@ func (w *c02World) honestSet(sigs []c02Sig, same func(c02Msg) bool) bool {
 			return false
 		}
 		if len(s.labels) != 1 || len(s.contribs) != 1 || s.contribs[0].signer != s.labels[0] || !same(s.contribs[0].msg) ||
-			s.labels[0] > uint64(w.n) || seen[s.labels[0]] {
+			!w.isMember(s.labels[0]) || seen[s.labels[0]] {
 			return false
 		}
 		seen[s.labels[0]] = true
@@ -186,8 +186,8 @@ func c02CreateStream(w *c02World, st *c02Streams) {
 				si = hotstuff.NewSyncInfoWith(in.qc.obj)
 				qt = "(Some " + in.qc.term + ")"
 			}
-			tos[i] = hotstuff.TimeoutMsg{ID: hotstuff.ID(in.id), View: hotstuff.View(view), MsgSignature: in.sig.obj, SyncInfo: si}
-			tt = append(tt, fmt.Sprintf("mkTO %d %s %s", in.id, qt, in.sig.term))
+			tos[i] = hotstuff.TimeoutMsg{ID: hotstuff.ID(w.id(in.id)), View: hotstuff.View(view), MsgSignature: in.sig.obj, SyncInfo: si}
+			tt = append(tt, fmt.Sprintf("mkTO %d %s %s", w.id(in.id), qt, in.sig.term))
 			if in.sig.obj != nil {
 				sigs = append(sigs, in.sig)
 			}
